@@ -41,3 +41,46 @@ pub mod align {
             && (r << bits) - num < (1usize << bits)
     }
 }
+
+/// `util::metadata::side_metadata::helpers`: data address -> metadata byte / bit arithmetic.
+pub mod side {
+    use crate::util::metadata::side_metadata::SideMetadataSpec;
+    use crate::util::Address;
+
+    /// A well-formed spec: 1..=64 bits per region, and no more metadata bits than data bits per region.
+    pub fn pre_spec(s: &SideMetadataSpec) -> bool {
+        s.log_num_of_bits <= 6 && s.log_bytes_in_region < 64 && s.log_bytes_in_region + 3 >= s.log_num_of_bits
+    }
+    /// Index of the region containing `a`.
+    pub fn region_index(s: &SideMetadataSpec, a: Address) -> usize {
+        a.as_usize() >> s.log_bytes_in_region
+    }
+    /// The metadata bit index of `a`'s region fits in a `usize` and the metadata byte is addressable.
+    pub fn pre_address_to_contiguous_meta_address(s: &SideMetadataSpec, a: Address) -> bool {
+        pre_spec(s)
+            && region_index(s, a) <= (usize::MAX >> s.log_num_of_bits)
+            && {
+                let start = s.get_starting_address().as_usize();
+                start <= usize::MAX - ((region_index(s, a) << s.log_num_of_bits) >> 3)
+            }
+    }
+    /// The metadata byte of region `i` with `w`-bit fields is byte `i * w / 8` of the spec's table.
+    pub fn post_address_to_contiguous_meta_address(s: &SideMetadataSpec, a: Address, r: Address) -> bool {
+        r.as_usize() == s.get_starting_address().as_usize() + ((region_index(s, a) << s.log_num_of_bits) >> 3)
+    }
+    /// Sub-byte fields sit at bit `(i * w) mod 8` of their byte; byte-or-wider fields at bit 0.
+    pub fn post_meta_byte_lshift(s: &SideMetadataSpec, a: Address, r: u8) -> bool {
+        if s.log_num_of_bits >= 3 {
+            r == 0
+        } else {
+            r as usize == ((region_index(s, a) << s.log_num_of_bits) & 7) && (r as usize) + (1 << s.log_num_of_bits) <= 8
+        }
+    }
+    pub fn pre_meta_byte_mask(s: &SideMetadataSpec) -> bool {
+        s.log_num_of_bits <= 3
+    }
+    /// `2^width - 1` truncated to a byte.
+    pub fn post_meta_byte_mask(s: &SideMetadataSpec, r: u8) -> bool {
+        r as u16 == ((1u16 << (1u16 << s.log_num_of_bits)) - 1) & 0xff
+    }
+}
